@@ -158,6 +158,7 @@ func (g *G) genBVH(dim int) {
 	n := g.pickI(groupSizes)
 	bs := g.groupBoxes(dim, n)
 	var sh *shape
+	var orders [][]int // the per-axis orders sortBounders produces for these objects (hook)
 	pan := guard(func() {
 		if dim == 3 {
 			objs := make([]*model3d.Rect, n)
@@ -165,6 +166,13 @@ func (g *G) genBVH(dim int) {
 			for i, b := range bs {
 				objs[i] = &model3d.Rect{MinVal: c3(b.lo), MaxVal: c3(b.hi)}
 				idx[objs[i]] = i
+			}
+			for _, ax := range model3d.VerifSortedOrders(objs) {
+				var o []int
+				for _, b := range ax {
+					o = append(o, idx[b])
+				}
+				orders = append(orders, o)
 			}
 			sh = shapeOfBVH3(model3d.NewBVHAreaDensity(objs),
 				func(t *model3d.BVH[*model3d.Rect]) bool { return t.Leaf != nil }, idx)
@@ -174,6 +182,13 @@ func (g *G) genBVH(dim int) {
 			for i, b := range bs {
 				objs[i] = &model2d.Rect{MinVal: c2(b.lo), MaxVal: c2(b.hi)}
 				idx[objs[i]] = i
+			}
+			for _, ax := range model2d.VerifSortedOrders(objs) {
+				var o []int
+				for _, b := range ax {
+					o = append(o, idx[b])
+				}
+				orders = append(orders, o)
 			}
 			sh = shapeOfBVH2(model2d.NewBVHAreaDensity(objs),
 				func(t *model2d.BVH[*model2d.Rect]) bool { return t.Leaf != nil }, idx)
@@ -202,6 +217,21 @@ func (g *G) genBVH(dim int) {
 	}
 	g.Emit(op, "perm=1 n="+strconv.Itoa(n))
 	g.Stat("bvh"+strconv.Itoa(dim)+" cases", 1)
+	// bvhx: the exact tree.  The faithful model (newBVH with areaDensityBVHSplit's scores - exact on these
+	// half-integer boxes - and the axis choice) must rebuild the very tree of NewBVHAreaDensity from the per-axis
+	// orders of sortBounders.
+	t := (&toks{}).s("c08", "bvhx").n(dim, n)
+	for _, o := range orders {
+		t.n(o...)
+	}
+	for _, b := range bs {
+		t.b(dim, b)
+	}
+	g.Emit(t.String(), strings.Join(w, " "))
+	g.Stat("bvhx"+strconv.Itoa(dim)+" cases", 1)
+	if n >= 3 && sh.kids[1].k == 'L' {
+		g.Stat("bvhx root cuts off a single last object", 1)
+	}
 }
 
 var _ = hlib.RatStr
